@@ -29,6 +29,9 @@ CONFIGS = {
     "default": ["-p", "fuel-core", "--lib", "--features", "p2p,relayer,rpc,shared-sequencer"],
     "fault-proving": ["-p", "fuel-core", "--lib", "--features",
                       "p2p,relayer,rpc,shared-sequencer,fault-proving"],
+    # the snapshot (regenesis) file format: feature `parquet` of fuel-core-chain-config is enabled only by the node
+    # binary, so the two library configurations above do not compile the parquet encoder / decoder / group reader
+    "parquet": ["-p", "fuel-core-chain-config", "--lib", "--features", "parquet"],
 }
 
 # crate name -> cargo package name, counted from today's tree (fail closed if one is missing)
@@ -60,6 +63,15 @@ EXPECTED = {
     "fuel_core_upgradable_executor": "fuel-core-upgradable-executor",
     "fuel_gas_price_algorithm": "fuel-gas-price-algorithm",
 }
+
+# crates whose facts a configuration must produce (fail closed if one is missing)
+EXPECTED_BY = {"parquet": ("fuel_core_chain_config", "fuel_core_storage", "fuel_core_types")}
+
+
+def expected(config):
+    names = EXPECTED_BY.get(config)
+    return EXPECTED if names is None else {c: EXPECTED[c] for c in names}
+
 
 
 class BuildError(Exception):
@@ -175,6 +187,7 @@ def ensure(config="default", force=False):
 
 
 def _ensure_locked(config, force):
+    EXPECTED = expected(config)
     fdir = facts_dir(config)
     state_path = os.path.join(fdir, "STATE.json")
     state = {}
